@@ -113,3 +113,11 @@ Example c22_nonvacuous :
   wop_sem_signed (Bin W32 Rotl) [-2147483647; 33] = Some 3 /\
   py_run 100 (expected (Bin W32 Rotl)) [-2147483647; 33] = Ok 3.
 Proof. split; [repeat constructor; unfold in_s; cbn; lia|]. split; vm_compute; reflexivity. Qed.
+
+(* REFUTED for the target-independent IR reading (shifts defined only for 0 <= count < width): the count is
+   not masked by wasm2ppci; the python target masks it in IrPy.ishl/ishr, so c22_binop_mapping still holds there *)
+Theorem c22_shift_mask_in_ir_refuted :
+  exists o p args r, In (o, p) table /\ args_ok o args /\
+                     wop_sem_signed o args = Some r /\ ir_run 100 p args = None /\ py_run 100 p args = Ok r.
+Proof. exact shift_count_unmasked_in_ir. Qed.
+Print Assumptions c22_shift_mask_in_ir_refuted.
